@@ -259,13 +259,41 @@ class Proto:
     def js(self): return dict(name=self.name, cname=self.cname, ret=self.ret, args=self.args, argnames=self.argnames, text=self.text, file=self.file, line=self.line)
 
 
+_AST = {}
+
+
+def c_ast(repo, bdir, work):
+    """clang JSON AST of a translation unit that includes xraylib.h and xrf_cross_sections_aux.h (parsed once per run)"""
+    k = (repo, bdir)
+    if k not in _AST:
+        inc = ['-DHAVE_CONFIG_H', '-I' + bdir, '-I' + repo + '/include', '-I' + repo + '/src']
+        tu = os.path.join(work, 'c20_tu.c')
+        open(tu, 'w').write('#include "xraylib.h"\n#include "xrf_cross_sections_aux.h"\n')
+        p = subprocess.run(['clang-14', '-Xclang', '-ast-dump=json', '-fsyntax-only'] + inc + [tu], capture_output=True, text=True)
+        if p.returncode != 0: raise TieError('include/xraylib.h', 0, p.stderr[-400:], 'clang could not parse the public headers')
+        _AST[k] = json.loads(p.stdout)
+    return _AST[k]
+
+
+def _ast_files(ast):
+    """yield (top-level declaration, file it is spelled in) — clang's JSON prints `file` only when it changes"""
+    cur = [None]
+    def note(loc):
+        for k in ('spellingLoc', 'expansionLoc'):
+            if k in loc: note(loc[k])
+        if 'file' in loc: cur[0] = loc['file']
+    for d in ast['inner']:
+        rng = d.get('range', {})
+        note(d.get('loc', {}))
+        f = cur[0]
+        if 'begin' in rng: note(rng['begin'])
+        if 'end' in rng: note(rng['end'])
+        yield d, f
+
+
 def c_prototypes(repo, bdir, work):
     inc = ['-DHAVE_CONFIG_H', '-I' + bdir, '-I' + repo + '/include', '-I' + repo + '/src']
-    tu = os.path.join(work, 'c20_tu.c')
-    open(tu, 'w').write('#include "xraylib.h"\n#include "xrf_cross_sections_aux.h"\n')
-    p = subprocess.run(['clang-14', '-Xclang', '-ast-dump=json', '-fsyntax-only'] + inc + [tu], capture_output=True, text=True)
-    if p.returncode != 0: raise TieError('include/xraylib.h', 0, p.stderr[-400:], 'clang could not parse the public headers')
-    ast = json.loads(p.stdout)
+    ast = c_ast(repo, bdir, work)
     cur = [None]
     def note(loc):
         for k in ('spellingLoc', 'expansionLoc'):
@@ -305,6 +333,116 @@ def c_prototypes(repo, bdir, work):
     if textual != set(protos):
         raise TieError('include/*.h', 0, ' '.join(sorted(textual ^ set(protos))[:8]), 'AST and header text disagree on the declared functions')
     return protos
+
+
+# ---- record types -------------------------------------------------------------------------------------
+
+class Struct:
+    """fields: [(name, (abi, pointee))] in declaration order; `cname`: the C record it stands for"""
+    __slots__ = ('name', 'cname', 'fields', 'file', 'line', 'text', 'raw')
+    def __init__(self, name, cname, fields, file, line, text=''):
+        self.name, self.cname, self.fields, self.file, self.line, self.text, self.raw = name, cname, fields, file, line, text, None
+    def js(self): return dict(name=self.name, cname=self.cname, fields=[[n, list(t)] for n, t in self.fields], file=self.file, line=self.line, text=self.text)
+    def show(self): return '{ ' + '; '.join('%s: %s' % (n, fmt_type(t)) for n, t in self.fields) + ' }'
+
+
+def fmt_type(t):
+    return t[0] + ('' if t[1] == '?' else ' to ' + t[1]) if t[0] == 'ptr' else t[0]
+
+
+def c_structs(repo, bdir, work):
+    """every record type completely defined in the public headers -> {C name: Struct}.  The name is the typedef name when the
+    record is only reachable through one (`typedef struct {…} xrlComplex`, `typedef struct _xrl_error xrl_error`), else the tag.
+    Tie: the compiler accepts, for every record, that the extracted fields have the extracted types and strictly increasing
+    offsets and that nothing lies behind the last one; the header text (own lexer) lists the same field names in the same order."""
+    ast = c_ast(repo, bdir, work)
+    recs = {}; order = []; tdef = {}
+    def rec_ids(node, out):
+        if isinstance(node, dict):
+            for k in ('ownedTagDecl', 'decl'):
+                v = node.get(k)
+                if isinstance(v, dict) and v.get('kind') == 'RecordDecl': out.append(v['id'])
+            for v in node.values(): rec_ids(v, out)
+        elif isinstance(node, list):
+            for v in node: rec_ids(v, out)
+    for d, f in _ast_files(ast):
+        if f is None or not f.startswith(repo + '/include/'): continue
+        rel = os.path.relpath(f, repo); line = d.get('loc', {}).get('line') or d.get('loc', {}).get('expansionLoc', {}).get('line', 0)
+        if d['kind'] == 'RecordDecl' and d.get('completeDefinition'):
+            if d.get('tagUsed') != 'struct': raise TieError(rel, line, d.get('name', ''), 'record in the public headers that is not a struct')
+            fields = []
+            for x in d.get('inner', []):
+                if x['kind'] == 'FieldDecl':
+                    if x.get('isBitfield'): raise TieError(rel, line, x.get('name', ''), 'bit-field in a public struct')
+                    fields.append((x['name'], c_type(x['type']['qualType'], rel, line), x['type']['qualType']))
+                elif x['kind'] not in ('FullComment', 'MaxFieldAlignmentAttr'):
+                    raise TieError(rel, line, x['kind'], 'member of a public struct that is not a field')
+            ids = [d['id']] + ([d['previousDecl']] if 'previousDecl' in d else [])
+            recs[d['id']] = dict(tag=d.get('name'), fields=fields, file=rel, line=line, ids=ids); order.append(d['id'])
+        elif d['kind'] == 'TypedefDecl':
+            out = []; rec_ids(d.get('inner', []), out)
+            for i in out: tdef.setdefault(i, d['name'])
+    structs = {}
+    for i in order:
+        r = recs[i]
+        td = next((tdef[j] for j in r['ids'] if j in tdef), None)
+        if r['tag'] and not td: name, spell = r['tag'], 'struct ' + r['tag']
+        elif td: name, spell = td, td
+        else: raise TieError(r['file'], r['line'], '', 'anonymous struct without a typedef name')
+        if name in structs: raise TieError(r['file'], r['line'], name, 'two public structs under one name')
+        st = Struct(name, name, [(n, t) for n, t, _ in r['fields']], r['file'], r['line'], spell)
+        st.raw = r['fields']; structs[name] = st
+    # ---- tie 1: the compiler
+    src = ['#include <stddef.h>', '#include "xraylib.h"', '#include "xrf_cross_sections_aux.h"']
+    for st in structs.values():
+        prev = None
+        for n, t, q in st.raw:
+            src.append('_Static_assert(_Generic(((%s *)0)->%s, %s: 1, default: 0), "type of %s.%s");' % (st.text, n, q, st.name, n))
+            if prev: src.append('_Static_assert(offsetof(%s, %s) < offsetof(%s, %s), "order %s.%s");' % (st.text, prev, st.text, n, st.name, n))
+            else: src.append('_Static_assert(offsetof(%s, %s) == 0, "first %s.%s");' % (st.text, n, st.name, n))
+            prev = n
+        if prev:
+            src.append('_Static_assert(offsetof(%s, %s) + sizeof(((%s *)0)->%s) + _Alignof(%s) > sizeof(%s), "tail of %s");' % (st.text, prev, st.text, prev, st.text, st.text, st.name))
+    cp = os.path.join(work, 'c20_structs.c'); open(cp, 'w').write('\n'.join(src) + '\n')
+    inc = ['-DHAVE_CONFIG_H', '-I' + bdir, '-I' + repo + '/include', '-I' + repo + '/src']
+    p = subprocess.run(['clang-14', '-fsyntax-only', '-Werror', '-Wno-deprecated-declarations'] + inc + [cp], capture_output=True, text=True)
+    if p.returncode != 0: raise TieError('include/*.h', 0, p.stderr[-600:], 'extracted struct layouts rejected by the compiler')
+    # ---- tie 2: own lexer over the header text
+    textual = {}
+    for h in public_headers(repo):
+        txt = strip_c_comments(open(os.path.join(repo, 'include', h)).read())
+        txt = re.sub(r'^\s*#[^\n]*', '', txt, flags=re.M)
+        for m in re.finditer(r'\b(typedef\s+)?struct\s*(\w*)\s*\{([^{}]*)\}\s*(\w*)\s*;', txt):
+            nm = m.group(4) if m.group(1) else m.group(2)
+            names = []
+            for decl in m.group(3).split(';'):
+                decl = decl.strip()
+                if not decl: continue
+                for part in decl.split(','):
+                    mm = re.search(r'(\w+)\s*(?:\[[^\]]*\])?\s*$', part.strip())
+                    if not mm: raise TieError('include/' + h, 0, decl, 'struct member not understood')
+                    names.append(mm.group(1))
+            textual[nm] = names
+    # `typedef struct _x x;` + `struct _x {…}`: the text knows the tag, the AST table the typedef name
+    for st in structs.values():
+        tag = next((recs[i]['tag'] for i in order if recs[i]['fields'] is st.raw), None)
+        names = textual.get(st.name) or textual.get(tag or '')
+        if names != [n for n, _ in st.fields]:
+            raise TieError(st.file, st.line, '%s: %s' % (st.name, names), 'AST and header text disagree on the members of a public struct')
+    if len(textual) != len(structs):
+        raise TieError('include/*.h', 0, ' '.join(sorted(set(textual) ^ set(structs))), 'AST and header text disagree on the set of public structs')
+    return structs
+
+
+def match_c_struct(name, cstructs, strip, file, line):
+    """the C record a binding-side record type stands for: binding name with the language's decoration removed, compared
+    without case and underscores"""
+    def norm(s): return s.replace('_', '').upper()
+    cands = [name] + [f(name) for f in strip]
+    for c in cands:
+        hits = [k for k in cstructs if norm(k) == norm(c)]
+        if len(hits) == 1: return hits[0]
+    raise TieError(file, line, name, 'record type of the binding that corresponds to no struct of the C headers')
 
 
 # =====================================================================================================
@@ -440,6 +578,96 @@ def fortran_protos(repo):
     return out
 
 
+F_HDR = re.compile(r'(?:(?:PURE|ELEMENTAL|RECURSIVE)\s+)*(FUNCTION|SUBROUTINE)\s+(\w+)\s*(?:\(([^)]*)\))?\s*(.*)$', re.I)
+
+
+class Wrapper:
+    """a procedure the binding publishes: `binds` = [(local name, C symbol, line)] foreign declarations in its scope, `calls` = the C
+    symbols of those its body really references; kind 'direct': the foreign declaration itself is what is published"""
+    __slots__ = ('name', 'kind', 'file', 'line', 'binds', 'calls', 'text')
+    def __init__(self, name, kind, file, line, binds=None, calls=None, text=''):
+        self.name, self.kind, self.file, self.line, self.binds, self.calls, self.text = name, kind, file, line, binds or [], calls or [], text
+    def js(self): return dict(name=self.name, kind=self.kind, file=self.file, line=self.line, binds=[list(b) for b in self.binds], calls=self.calls, text=self.text)
+
+
+def fortran_wrappers(repo):
+    """module procedures of the two Fortran sources with the `BIND(C,NAME=…)` interface bodies declared inside them, and the
+    interface bodies of the module's own INTERFACE block (published under their own name).  Every interface body must be
+    referenced by the procedure that declares it."""
+    out = []
+    for rel in ('fortran/xraylib_wrap.F90', 'fortran/xraylib_wrap_generated.F90'):
+        lines = fortran_logical_lines(os.path.join(repo, rel), rel)
+        cur = None; inner = None; inter = 0; body = []
+        for ln, l in lines:
+            u = l.upper()
+            if re.match(r'INTERFACE\b', u):
+                if re.match(r'INTERFACE\s+\w', u): raise TieError(rel, ln, l, 'named (generic) INTERFACE: the extractor assumes plain interface blocks')
+                inter += 1; continue
+            if re.match(r'END\s*INTERFACE\b', u):
+                if inter == 0: raise TieError(rel, ln, l, 'END INTERFACE without INTERFACE')
+                inter -= 1; continue
+            if re.match(r'END\s*(FUNCTION|SUBROUTINE)\b', u):
+                if inner is not None: inner = None
+                elif cur is not None:
+                    for loc, c, bl in cur.binds:
+                        if any(re.search(r'\b%s\b' % re.escape(loc), b, flags=re.I) for b in body): 
+                            if c not in cur.calls: cur.calls.append(c)
+                        else: raise TieError(rel, bl, loc, 'interface body that the enclosing procedure %s never references' % cur.name)
+                    cur = None; body = []
+                else: raise TieError(rel, ln, l, 'END FUNCTION/SUBROUTINE without an open procedure')
+                continue
+            m = F_HDR.match(l)
+            if m:
+                name, tail = m.group(2), m.group(4)
+                mb = re.search(r"BIND\s*\(\s*C\s*,\s*NAME\s*=\s*'(\w+)'\s*\)", tail, flags=re.I)
+                if inter:
+                    if inner is not None: raise TieError(rel, ln, l, 'procedure header inside an interface body')
+                    if not mb: raise TieError(rel, ln, l, 'interface body without BIND(C,NAME=…)')
+                    if cur is None: out.append(Wrapper(name, 'direct', rel, ln, [(name, mb.group(1), ln)], [mb.group(1)], l))
+                    else: cur.binds.append((name, mb.group(1), ln))
+                    inner = name
+                else:
+                    if cur is not None: raise TieError(rel, ln, l, 'procedure nested in procedure %s outside an INTERFACE block' % cur.name)
+                    if mb: raise TieError(rel, ln, l, 'BIND(C) procedure outside an INTERFACE block')
+                    cur = Wrapper(name, 'wrapper', rel, ln, text=l); out.append(cur); body = []
+                continue
+            if re.match(r'[A-Z ()_=,0-9]*\bFUNCTION\s+\w+\s*\(', u) and '::' not in u and not u.startswith('END'):
+                raise TieError(rel, ln, l, 'function header with a type prefix: not understood')
+            if cur is not None and not inter and inner is None: body.append(l)
+        if cur is not None or inter: raise TieError(rel, 0, '', 'unterminated procedure or INTERFACE block')
+    return out
+
+
+def fortran_structs(repo, cstructs):
+    """`TYPE, BIND(C) :: name … ENDTYPE` of fortran/xraylib_wrap.F90 (module level and local to a procedure)"""
+    rel = 'fortran/xraylib_wrap.F90'
+    lines = fortran_logical_lines(os.path.join(repo, rel), rel)
+    out = []; cur = None
+    for ln, l in lines:
+        u = l.upper()
+        m = re.match(r'TYPE\s*,\s*BIND\s*\(\s*C\s*\)\s*::\s*(\w+)$', l, flags=re.I)
+        if m:
+            if cur is not None: raise TieError(rel, ln, l, 'TYPE inside TYPE')
+            cur = Struct(m.group(1), match_c_struct(m.group(1), cstructs, [lambda s: re.sub(r'_?C$', '', s, flags=re.I)], rel, ln), [], rel, ln, l); continue
+        if re.match(r'TYPE\s*,.*BIND', u): raise TieError(rel, ln, l, 'TYPE, BIND(C) header not understood')
+        if cur is None: continue
+        if re.match(r'END\s*TYPE\b', u): out.append(cur); cur = None; continue
+        mm = re.match(r'(.+?)::\s*(.+)$', l)
+        if not mm: raise TieError(rel, ln, l, 'line inside TYPE, BIND(C) not understood')
+        base = None
+        for pat, t in F_TYPES:
+            mt = re.match(r'\s*' + pat, mm.group(1), flags=re.I)
+            if mt: base = t; attrs = mm.group(1)[mt.end():].strip(); break
+        if base is None or base[0] not in ('int', 'double', 'size_t', 'ptr', 'complex'): raise TieError(rel, ln, l, 'component type of a BIND(C) type not in the type map')
+        if attrs.strip(' ,'): raise TieError(rel, ln, l, 'component attributes in a BIND(C) type')
+        for nm in mm.group(2).split(','):
+            nm = nm.strip()
+            if not re.fullmatch(r'\w+', nm): raise TieError(rel, ln, l, 'component declarator not understood')
+            cur.fields.append((nm, base))
+    if cur is not None: raise TieError(rel, 0, cur.name, 'TYPE, BIND(C) not terminated')
+    return out
+
+
 # =====================================================================================================
 # Pascal
 
@@ -503,6 +731,163 @@ def pascal_protos(repo):
                 ret = ('void', '?')
             out.append(Proto(pname, ret, args, names, l.strip(), rel, ln, cname=cname))
     return out
+
+
+P_PUBLIC = dict(P_TYPES, string=('ptr', 'char'), tstringarray=('ptr', 'char*'))
+P_FIELD = {'longint': ('int', '?'), 'double': ('double', '?'), 'pansichar': ('ptr', 'char'), 'xrl_error_code': ('enum', '?'),
+           'array of longint': ('ptr', 'int'), 'array of double': ('ptr', 'double'), 'array of tcrystalatom': ('ptr', 'Crystal_Atom')}
+P_DECL = re.compile(r'\s*(function|procedure)\s+(\w+)\s*(?:\(([^)]*)\))?\s*(?::\s*(\w+))?\s*;(.*)$', re.I)
+
+
+def pascal_params(argl, rel, ln, types):
+    args = []; names = []
+    for grp in (argl or '').split(';'):
+        grp = grp.strip()
+        if not grp: continue
+        mg = re.fullmatch(r'(var\s+|const\s+)?([\w\s,]+):\s*(\w+)', grp, flags=re.I)
+        if not mg: raise TieError(rel, ln, grp, 'Pascal parameter group not understood')
+        mode = (mg.group(1) or '').strip().lower(); ty = mg.group(3).lower()
+        for nm in mg.group(2).split(','):
+            if mode == 'var':
+                if ty not in P_VAR: raise TieError(rel, ln, grp, 'Pascal var-parameter type not in the type map')
+                args.append(P_VAR[ty])
+            else:
+                if ty not in types: raise TieError(rel, ln, grp, 'Pascal type not in the type map')
+                args.append(types[ty])
+            names.append(nm.strip())
+    return args, names
+
+
+def pascal_unit(repo, cstructs):
+    """pascal/xraylib.pas with its `{$I …}` includes expanded: the unit as the Pascal compiler sees it.
+    -> dict(consts, structs, direct, public, wrappers, iface, impl)
+       consts    constants of the unit's own `const` sections (the included xraylib_const.pas is read by pascal_constants) and the
+                 enumerators of `xrl_error_code`
+       soname    [(line, text, number)] of the External_library strings
+       structs   record types
+       direct    `external` declarations of the interface section (published under their own name)
+       public    non-external function declarations of the interface section (incl. xraylib_iface.pas): Proto with the Pascal types
+       wrappers  procedures defined in the implementation section with the `external` declarations their bodies reference
+       iface/impl  the declarations of xraylib_iface.pas and the headers of the definitions of xraylib_impl.pas as normalised text"""
+    main = 'pascal/xraylib.pas'
+    lines = []            # (file, line, text)
+    def load(rel, depth=0):
+        path = os.path.join(repo, rel)
+        if not os.path.exists(path): raise TieError(rel, 0, '', 'Pascal source file missing')
+        for ln, l in enumerate(pascal_strip(open(path).read()).splitlines(), 1):
+            mi = re.fullmatch(r'\s*\{\$I(?:NCLUDE)?\s+([\w.]+)\s*\}\s*', l, flags=re.I)
+            if mi:
+                if depth: raise TieError(rel, ln, l, 'nested include')
+                load('pascal/' + mi.group(1), 1); continue
+            if re.search(r'\{\$I(?:NCLUDE)?\s', l, flags=re.I): raise TieError(rel, ln, l, 'include directive not understood')
+            lines.append((rel, ln, l))
+    load(main)
+    if not {'pascal/xraylib_const.pas', 'pascal/xraylib_iface.pas', 'pascal/xraylib_impl.pas'} <= {f for f, _, _ in lines}:
+        raise TieError(main, 0, '', 'the unit no longer includes xraylib_const.pas, xraylib_iface.pas and xraylib_impl.pas')
+    section = 'head'; block = None
+    consts = []; soname = []; structs = []; direct = []; public = []; wrappers = []; iface = []; impl = []
+    externals = {}       # local name (lower) -> (C symbol, file, line), implementation section
+    i = 0; n = len(lines)
+    def directive(t): return re.fullmatch(r'(\{\$[^}]*\}\s*)+', t) is not None
+    while i < n:
+        rel, ln, l = lines[i]; t = l.strip(); tl = t.lower(); i += 1
+        if not t or directive(t): continue
+        if rel == 'pascal/xraylib_const.pas': continue                      # pascal_constants reads it (and aborts on any other line)
+        if section == 'head':
+            if tl == 'interface': section = 'interface'
+            elif not re.fullmatch(r'unit\s+\w+\s*;', tl): raise TieError(rel, ln, l, 'line before `interface` not understood')
+            continue
+        if tl == 'implementation':
+            if section != 'interface': raise TieError(rel, ln, l, '`implementation` out of place')
+            section = 'implementation'; block = None; continue
+        if tl in ('const', 'type', 'uses'): block = tl; continue
+        if re.fullmatch(r'end\s*\.', tl): section = 'done'; continue
+        if section == 'done': raise TieError(rel, ln, l, 'text after `end.`')
+        md = P_DECL.match(t)
+        if md:
+            block = None
+            kind, name, argl, rett, tail = md.groups(); tail = tail.strip()
+            me = re.fullmatch(r"cdecl\s*;\s*external\s+(\w+)\s+name\s+'(\w+)'\s*;", tail, flags=re.I)
+            if me:
+                if section == 'interface': direct.append(Wrapper(name, 'direct', rel, ln, [(name, me.group(2), ln)], [me.group(2)], t))
+                else:
+                    if name.lower() in externals: raise TieError(rel, ln, l, 'external declared twice')
+                    externals[name.lower()] = (me.group(2), rel, ln, name)
+                continue
+            if tail: raise TieError(rel, ln, l, 'text after a function declaration not understood')
+            if rel == 'pascal/xraylib_iface.pas': iface.append((name, re.sub(r'\s+', '', t).lower(), ln))
+            if section == 'interface':
+                args, names = pascal_params(argl, rel, ln, P_PUBLIC)
+                if kind.lower() == 'function':
+                    if not rett or rett.lower() not in P_PUBLIC: raise TieError(rel, ln, l, 'Pascal result type not in the type map')
+                    ret = P_PUBLIC[rett.lower()]
+                else: ret = ('void', '?')
+                public.append(Proto(name, ret, args, names, t, rel, ln)); continue
+            # a definition: optional var section, then begin … end;
+            if rel == 'pascal/xraylib_impl.pas': impl.append((name, re.sub(r'\s+', '', t).lower(), ln))
+            w = Wrapper(name, 'wrapper', rel, ln, text=t); body = []; depth = 0; started = False
+            while i < n:
+                r2, l2n, l2 = lines[i]; i += 1
+                for tok in re.findall(r"'[^']*'|\w+", l2):
+                    k = tok.lower()
+                    if k in ('begin', 'case', 'try', 'asm', 'record'): depth += 1; started = True
+                    elif k == 'end': depth -= 1
+                    elif k in ('function', 'procedure') and not started: raise TieError(r2, l2n, l2, 'nested procedure: not understood')
+                body.append(l2)
+                if started and depth == 0: break
+            else:
+                raise TieError(rel, ln, l, 'definition without a terminated begin … end block')
+            w.text = '\n'.join(body); wrappers.append(w); continue
+        if re.match(r'(function|procedure)\b', tl): raise TieError(rel, ln, l, 'function declaration not understood')
+        if block == 'uses':
+            if not re.fullmatch(r'[\w\s,]+;?', t): raise TieError(rel, ln, l, 'uses clause not understood')
+            if t.endswith(';'): block = None
+            continue
+        if block == 'const':
+            mc = re.fullmatch(r"(\w+)\s*=\s*([^;]+);", t)
+            if not mc: raise TieError(rel, ln, l, 'line of a const section is not `NAME = value;`')
+            ms = re.fullmatch(r"'lib(\w+?)[.-](?:so\.)?(\d+)(?:\.dylib|\.dll)?'", mc.group(2).strip())
+            if mc.group(1).lower() == 'external_library':
+                if not ms or ms.group(1) != 'xrl': raise TieError(rel, ln, l, 'External_library string not understood')
+                soname.append((ln, t, int(ms.group(2)))); continue
+            consts.append((mc.group(1), classify_value(mc.group(2), rel, ln), mc.group(2).strip(), rel, ln)); continue
+        if block == 'type':
+            # multi-line type declarations: collect up to the terminating `;` at nesting depth 0
+            decl = t; start = ln
+            def open_rec(x): return len(re.findall(r'\brecord\b', x, flags=re.I)) - len(re.findall(r'\bend\b', x, flags=re.I))
+            while (open_rec(decl) > 0 or not decl.rstrip().endswith(';')) and i < n:
+                decl += ' ' + lines[i][2].strip(); i += 1
+            mr = re.fullmatch(r'(\w+)\s*=\s*record\b(.*)\bend\s*;', decl, flags=re.I | re.S)
+            if mr:
+                fields = []
+                for fd in mr.group(2).split(';'):
+                    fd = fd.strip()
+                    if not fd: continue
+                    mf = re.fullmatch(r'([\w\s,]+):\s*(.+)', fd)
+                    if not mf: raise TieError(rel, start, fd, 'record field not understood')
+                    ty = re.sub(r'\s+', ' ', mf.group(2).strip().lower())
+                    if ty not in P_FIELD: raise TieError(rel, start, fd, 'record field type not in the type map')
+                    for nm in mf.group(1).split(','): fields.append((nm.strip(), P_FIELD[ty]))
+                structs.append(Struct(mr.group(1), match_c_struct(mr.group(1), cstructs, [lambda x: re.sub(r'^T', '', x)], rel, start), fields, rel, start, decl)); continue
+            me = re.fullmatch(r'(\w+)\s*=\s*\(([\w\s,]+)\)\s*;', decl)
+            if me:
+                for k, en in enumerate(x.strip() for x in me.group(2).split(',')):
+                    consts.append((en, ('int', k), '%s (enumerator %d of %s)' % (en, k, me.group(1)), rel, start))
+                continue
+            if re.fullmatch(r'\w+\s*=\s*(\^\s*\w+|array of \w+)\s*;', decl, flags=re.I): continue      # pointer / array aliases
+            raise TieError(rel, start, decl, 'type declaration not understood')
+        raise TieError(rel, ln, l, 'line of the Pascal unit not understood')
+    if section != 'done': raise TieError(main, 0, '', 'unit not terminated by `end.`')
+    used = set()
+    for w in wrappers:
+        for loc, (c, f, el, nm) in externals.items():
+            if re.search(r'\b%s\b' % re.escape(loc), w.text, flags=re.I):
+                w.binds.append((nm, c, el)); w.calls.append(c); used.add(loc)
+        w.text = ''
+    for loc, (c, f, el, nm) in externals.items():
+        if loc not in used: raise TieError(f, el, nm, '`external` declaration of the implementation section that no procedure references')
+    return dict(consts=resolve(consts, case_insensitive=True), soname=soname, structs=structs, direct=direct, public=public, wrappers=wrappers,
+                iface=iface, impl=impl)
 
 
 # =====================================================================================================
@@ -585,6 +970,29 @@ def cython_bodies(repo):
     return out
 
 
+def cython_structs(repo, cstructs):
+    """`ctypedef struct NAME:` / `cdef struct NAME:` blocks of python/xraylib_np_c.pxd with their members (`type name`).  These are
+    `cdef extern` declarations: Cython takes the layout from the C header, the declared member names and types are what it
+    generates accesses and conversions from."""
+    rel = 'python/xraylib_np_c.pxd'
+    out = []; cur = None; cur_ind = None
+    for ln, l in enumerate(open(os.path.join(repo, rel)).read().splitlines(), 1):
+        s = re.sub(r'#.*', '', l).rstrip()
+        if not s.strip(): continue
+        ind = len(s) - len(s.lstrip()); t = s.strip()
+        if cur is not None and ind > cur_ind:
+            m = re.fullmatch(r'([\w\s\*]+?)\s*\b(\w+)', t)
+            if not m: raise TieError(rel, ln, l, 'struct member in the pxd not understood')
+            ty = m.group(1).strip()
+            cur.fields.append((m.group(2), ('enum', '?') if ty == 'xrl_error_code' else cy_type(ty, rel, ln))); continue
+        if cur is not None: out.append(cur); cur = None
+        m = re.fullmatch(r'(?:ctypedef\s+struct|cdef\s+struct|struct)\s+(\w+)\s*:', t)
+        if m:
+            cur = Struct(m.group(1), match_c_struct(m.group(1), cstructs, [], rel, ln), [], rel, ln, t); cur_ind = ind
+    if cur is not None: out.append(cur)
+    return out
+
+
 def cy_type(t, file, line):
     t = re.sub(r'\s+', ' ', t.replace('*', ' * ')).strip()
     t = re.sub(r'\bconst\b|\bstruct\b', '', t); t = re.sub(r'\s+', ' ', t).strip().replace(' *', '*')
@@ -650,6 +1058,90 @@ def idl_constants(repo):
     not_assigned = sorted(c for c in common if c.upper() not in assigned)
     return consts, dict(common=len(common), assigned_not_in_common=not_common, common_never_assigned=not_assigned, files=files,
                         common_names=sorted({c.upper() for c in common}), assigned_names=sorted(assigned))
+
+
+def idl_functions(repo, cnames):
+    """the two hand-written IDL declaration sets and the glue they name:
+       dlm      idl/libxrlidl.dlm: `FUNCTION|PROCEDURE NAME min max`
+       sysfun   idl/xraylib_idl.c: entries `{{IDL_x},"NAME", min, max, 0, 0}` of the IDL_SYSFUN_DEF2 tables xrl_functions / xrl_procedures
+       glue     Wrapper per registered `IDL_x` with the C API functions its body calls (definitions written out by hand, or by a
+                `XRL_…(name)` macro whose body is `IDL_ ## name(…) { … name(…) … }`)
+    Names are IDL's (upper case); `cnames` (C function names) gives them their C spelling."""
+    up = {}
+    for c in cnames:
+        if c.upper() in up: raise TieError('include/*.h', 0, c, 'two C functions that differ only in case: case-insensitive bindings cannot tell them apart')
+        up[c.upper()] = c
+    def cspell(n): return up.get(n.upper(), n)
+    rel = 'idl/libxrlidl.dlm'
+    dlm = []; hdr = set()
+    for ln, l in enumerate(open(os.path.join(repo, rel)).read().splitlines(), 1):
+        t = l.strip()
+        if not t or t.startswith('#'): continue
+        m = re.fullmatch(r'(FUNCTION|PROCEDURE)\s+(\w+)\s+(\d+)\s+(\d+)(\s+\w+)*', t)
+        if m:
+            if m.group(5): raise TieError(rel, ln, l, 'DLM routine with options (KEYWORDS/OBSOLETE): not understood')
+            dlm.append(dict(kind=m.group(1), idl=m.group(2), name=cspell(m.group(2)), min=int(m.group(3)), max=int(m.group(4)), file=rel, line=ln, text=t)); continue
+        m = re.match(r'(MODULE|DESCRIPTION|VERSION|SOURCE|BUILD_DATE|CHECKSUM)\b', t)
+        if not m: raise TieError(rel, ln, l, 'line of the DLM file not understood')
+        hdr.add(m.group(1))
+    rel = 'idl/xraylib_idl.c'
+    txt = strip_c_comments(open(os.path.join(repo, rel)).read())
+    sysfun = []; tables = {}
+    for m in re.finditer(r'static\s+IDL_SYSFUN_DEF2\s+(\w+)\s*\[\s*\]\s*=\s*\{(.*?)\n\}\s*;', txt, flags=re.S):
+        tab = m.group(1); base = txt[:m.start(2)].count('\n') + 1
+        if tab not in ('xrl_functions', 'xrl_procedures'): raise TieError(rel, base, tab, 'unexpected IDL_SYSFUN_DEF2 table')
+        tables[tab] = 0
+        for k, el in enumerate(m.group(2).splitlines()):
+            t = el.strip()
+            if not t: continue
+            me = re.fullmatch(r'\{\s*\{\s*(?:\(IDL_SYSRTN_GENERIC\)\s*)?IDL_(\w+)\s*\}\s*,\s*"(\w+)"\s*,\s*(\d+)\s*,\s*(\d+)\s*,\s*0\s*,\s*0\s*\}\s*,?', t)
+            if not me: raise TieError(rel, base + k, el, 'entry of the IDL_SYSFUN_DEF2 table not understood')
+            tables[tab] += 1
+            sysfun.append(dict(kind='FUNCTION' if tab == 'xrl_functions' else 'PROCEDURE', ident=me.group(1), idl=me.group(2), name=cspell(me.group(2)),
+                               min=int(me.group(3)), max=int(me.group(4)), file=rel, line=base + k, text=t))
+    if set(tables) != {'xrl_functions', 'xrl_procedures'}: raise TieError(rel, 0, str(sorted(tables)), 'IDL_SYSFUN_DEF2 tables xrl_functions / xrl_procedures not found')
+    mreg = re.search(r'IDL_SysRtnAdd\(\s*xrl_functions\s*,\s*TRUE\s*,.*?IDL_SysRtnAdd\(\s*xrl_procedures\s*,\s*FALSE\s*,', txt, flags=re.S)
+    if not mreg: raise TieError(rel, 0, '', 'IDL_Load no longer registers xrl_functions as functions and xrl_procedures as procedures')
+    # ---- glue definitions
+    defs = {}      # ident -> (line, [C API calls])
+    api = re.compile(r'\b(%s)\s*\(' % '|'.join(sorted(map(re.escape, cnames), key=len, reverse=True)))
+    joined = txt.replace('\\\n', ' \x01')            # macro continuation lines joined, \x01 keeps the line count recoverable
+    macros = {}
+    for m in re.finditer(r'^#define\s+(XRL_\w+)\((\w+)\)\s+(.*)$', joined, flags=re.M):
+        body = m.group(3); par = m.group(2); ln = joined[:m.start()].count('\n') + joined[:m.start()].count('\x01') + 1
+        if not re.match(r'IDL_VPTR\s+IDL_CDECL\s+IDL_\s*##\s*%s\s*\(' % par, body): raise TieError(rel, ln, m.group(1), 'wrapper macro does not define IDL_ ## name')
+        rest = re.sub(r'^IDL_VPTR\s+IDL_CDECL\s+IDL_\s*##\s*%s\s*\(' % par, '', body)
+        own = len(re.findall(r'(?<!\w)%s\s*\(' % par, rest)); other = api.findall(rest)
+        if own != 1 or other: raise TieError(rel, ln, m.group(1), 'wrapper macro body is not a single call of its parameter')
+        macros[m.group(1)] = ln
+    plain = re.sub(r'^#define[^\n]*$', lambda m: '\x01' * m.group(0).count('\x01'), joined, flags=re.M)
+    for m in re.finditer(r'^(XRL_\w+)\((\w+)\)\s*;?\s*$', plain, flags=re.M):
+        ln = plain[:m.start()].count('\n') + plain[:m.start()].count('\x01') + 1
+        if m.group(1) not in macros: raise TieError(rel, ln, m.group(0), 'invocation of an unknown wrapper macro')
+        if m.group(2) in defs: raise TieError(rel, ln, m.group(0), 'glue function defined twice')
+        defs[m.group(2)] = (ln, [m.group(2)])
+    for m in re.finditer(r'^(?:IDL_VPTR|void)\s+IDL_CDECL\s+IDL_(\w+)\s*\(\s*int\s+argc\s*,\s*IDL_VPTR\s+argv\[\]\s*\)\s*\{', plain, flags=re.M):
+        ln = plain[:m.start()].count('\n') + plain[:m.start()].count('\x01') + 1
+        depth = 1; j = m.end()
+        while j < len(plain) and depth:
+            if plain[j] == '{': depth += 1
+            elif plain[j] == '}': depth -= 1
+            j += 1
+        if depth: raise TieError(rel, ln, m.group(1), 'glue function body not terminated')
+        body = re.sub(r'"(?:[^"\\\n]|\\.)*"', '""', plain[m.end():j])
+        if m.group(1) in defs: raise TieError(rel, ln, m.group(1), 'glue function defined twice')
+        calls = []
+        for c in api.findall(body):
+            if c not in calls: calls.append(c)
+        defs[m.group(1)] = (ln, calls)
+    glue = []
+    for e in sysfun:
+        if e['ident'] not in defs: raise TieError(rel, e['line'], e['ident'], 'registered glue function IDL_%s has no definition the extractor recognises' % e['ident'])
+        ln, calls = defs[e['ident']]
+        glue.append(Wrapper(e['name'], 'wrapper', rel, ln, [(e['ident'], c, ln) for c in calls], list(calls), 'IDL_%s registered as "%s"' % (e['ident'], e['idl'])))
+    registered = {e['ident'] for e in sysfun}
+    unregistered = sorted(d for d in defs if d not in registered)
+    return dict(dlm=dlm, sysfun=sysfun, glue=glue, unregistered=unregistered, dlm_header=sorted(hdr), macros=len(macros))
 
 
 # =====================================================================================================
@@ -750,19 +1242,20 @@ def versions(repo):
     add('include/xraylib.h', h[:mm[0].start()].count('\n') + 1, 'XRAYLIB_MAJOR.MINOR.MICRO', '.'.join(m.group(1) for m in mm), mm[0].group(0))
     grep('meson.build', r"^\s*version\s*:\s*'([\d.]+)'", 'project version')
     grep('configure.ac', r'AC_INIT\(\[xraylib\],\s*\[([\d.]+)\]', 'AC_INIT')
-    grep('xraylib.spec', r'^Version:\s*([\d.]+)', 'Version', required=False)
-    grep('pyproject.toml', r'^\s*version\s*=\s*"([\d.]+)"', 'version', required=False)
-    grep('CITATION.cff', r'^version:\s*"?([\d.]+)"?', 'version', required=False)
-    grep('.bumpversion.cfg', r'^current_version\s*=\s*([\d.]+)', 'current_version', required=False)
+    grep('xraylib.spec', r'^Version:\s*([\d.]+)', 'Version')
+    grep('pyproject.toml', r'^\s*version\s*=\s*"([\d.]+)"', 'version')
+    grep('CITATION.cff', r'^version:\s*"?([\d.]+)"?', 'version')
+    grep('Changelog', r'^Version\s+(\d+\.\d+\.\d+)\b', 'first (= newest) Changelog entry')
+    grep('.bumpversion.cfg', r'^current_version\s*=\s*([\d.]+)', 'current_version')
     for rel in sorted(os.listdir(os.path.join(repo, 'windows'))) if os.path.isdir(os.path.join(repo, 'windows')) else []:
         p = 'windows/' + rel
         if os.path.isfile(os.path.join(repo, p)):
             grep(p, r'(?i)(?:AppVersion|MY_VERSION|define\s+MyAppVersion|VERSION)\s*[= ]\s*"?(\d+\.\d+\.\d+)"?', 'installer version', required=False)
-    grep('idl/libxrlidl.dlm', r'^VERSION\s+([\d.]+)', 'DLM VERSION', required=False)
+    grep('idl/libxrlidl.dlm', r'^VERSION\s+([\d.]+)', 'DLM VERSION')
     # not read: windows/dotNetSrc (the separately maintained .NET wrapper; its AssemblyVersion 4.1.0 / VERSION_MINOR = 0 and the
     # example programs' 1.0.0 are that project's own assembly versions — the wrapper is not among the binding interfaces the
     # property lists and .bumpversion.cfg, the mechanism the property anchors, does not manage those files)
-    grep('java/build.gradle.in', r"^\s*version\s*=?\s*'([\d.]+)'", 'gradle version', required=False)
+    grep('java/build.gradle.in', r"^\s*version\s*=?\s*'([\d.]+)'", 'gradle version')
     grep('doc/Doxyfile', r'^PROJECT_NUMBER\s*=\s*([\d.]+)', 'doxygen', required=False)
     # every file that bumpversion rewrites must be one we read (a new version-bearing file must not go unnoticed)
     bp = os.path.join(repo, '.bumpversion.cfg')
@@ -772,6 +1265,134 @@ def versions(repo):
             if m and m.group(1) not in {o['file'] for o in out}:
                 raise TieError('.bumpversion.cfg', ln, l, 'bumpversion rewrites a file whose version statement the extractor does not read')
     return out
+
+
+def libtool_versions(repo):
+    """the libtool interface triple current:revision:age, stated independently by the two build systems, and the places that
+    hard-code the resulting soname number (current - age): -> (triples, sonames)"""
+    triples = []
+    def one(rel, pats, what):
+        txt = open(os.path.join(repo, rel)).read().splitlines()
+        vals = []; where = 0
+        for key, pat in pats:
+            hit = [(ln, re.match(pat, l)) for ln, l in enumerate(txt, 1) if re.match(pat, l)]
+            if len(hit) != 1: raise TieError(rel, 0, key, 'libtool version component not stated exactly once')
+            vals.append(int(hit[0][1].group(1))); where = where or hit[0][0]
+        triples.append(dict(file=rel, line=where, what=what, current=vals[0], revision=vals[1], age=vals[2], text='%d:%d:%d' % tuple(vals)))
+    one('configure.ac', [('LIB_CURRENT', r'LIB_CURRENT=(\d+)\s*$'), ('LIB_REVISION', r'LIB_REVISION=(\d+)\s*$'), ('LIB_AGE', r'LIB_AGE=(\d+)\s*$')], 'LIB_CURRENT:LIB_REVISION:LIB_AGE')
+    one('meson.build', [('lib_current', r'lib_current\s*=\s*(\d+)\s*$'), ('lib_revision', r'lib_revision\s*=\s*(\d+)\s*$'), ('lib_age', r'lib_age\s*=\s*(\d+)\s*$')], 'lib_current:lib_revision:lib_age')
+    # how the two build systems turn the triple into the library version must stay what the comparison assumes
+    mk = open(os.path.join(repo, 'src/Makefile.am')).read()
+    if not re.search(r'libxrl_la_LDFLAGS\s*=\s*-version-info\s+@LIB_CURRENT@:@LIB_REVISION@:@LIB_AGE@', mk):
+        raise TieError('src/Makefile.am', 0, 'libxrl_la_LDFLAGS', 'libxrl is no longer linked with -version-info @LIB_CURRENT@:@LIB_REVISION@:@LIB_AGE@')
+    ms = open(os.path.join(repo, 'meson.build')).read()
+    if not re.search(r"^version\s*=\s*'@0@\.@1@\.@2@'\.format\(\(lib_current - lib_age\), lib_age, lib_revision\)", ms, flags=re.M):
+        raise TieError('meson.build', 0, 'version =', 'meson no longer derives the library version as (current-age).age.revision')
+    return triples
+
+
+def swig_invocations(repo):
+    """the commands that run SWIG on src/xraylib.i in the six build files; xraylib.i %includes only xraylib.h, whose nested
+    #includes SWIG follows only with -includeall -> [(file, line, has -includeall, text)]"""
+    out = []
+    for rel in ('lua/Makefile.am', 'perl/Makefile.am', 'php/Makefile.am', 'ruby/Makefile.am', 'python/Makefile.am'):
+        p = os.path.join(repo, rel)
+        if not os.path.exists(p): raise TieError(rel, 0, '', 'build file of a SWIG binding is missing')
+        hits = []; acc = ''; start = 0
+        for ln, l in enumerate(open(p).read().splitlines(), 1):
+            if not acc: start = ln
+            if l.endswith('\\'): acc += l[:-1] + ' '; continue
+            acc += l
+            if re.search(r'\$[({]SWIG[)}]', acc) and 'xraylib.i' in acc: hits.append((start, acc))
+            acc = ''
+        if not hits: raise TieError(rel, 0, '$(SWIG) … xraylib.i', 'no SWIG invocation found in the build file of a SWIG binding')
+        for ln, l in hits:
+            out.append(dict(file=rel, line=ln, flag=bool(re.search(r'(?<!\S)-includeall(?!\S)', l)), text=re.sub(r'\s+', ' ', l.strip())[:200]))
+    rel = 'python/meson.build'
+    p = os.path.join(repo, rel)
+    if not os.path.exists(p): raise TieError(rel, 0, '', 'build file of a SWIG binding is missing')
+    txt = open(p).read()
+    cmds = [m for m in re.finditer(r'command\s*:\s*\[(.*?)\]', txt, flags=re.S) if re.search(r'(?<![\w\'])swig\s*,', m.group(1))]
+    if not cmds: raise TieError(rel, 0, 'command : [swig, …]', 'no SWIG invocation found in python/meson.build')
+    for m in cmds:
+        args = re.findall(r"'([^']*)'", m.group(1))
+        out.append(dict(file=rel, line=txt[:m.start()].count('\n') + 1, flag='-includeall' in args, text=re.sub(r'\s+', ' ', m.group(0))[:200]))
+    return out
+
+
+def meson_list_expr(txt, name, rel, depth=0):
+    """value of a meson variable that is built from `files(…)`, `[…]` and `+` only -> list of strings (identifiers inside
+    `[…]` are kept as `<name>`)"""
+    if depth > 8: raise TieError(rel, 0, name, 'cyclic meson variable')
+    ms = list(re.finditer(r'^%s\s*(\+?=)\s*' % re.escape(name), txt, flags=re.M))
+    if not ms: raise TieError(rel, 0, name, 'meson variable not found')
+    out = []
+    for m in ms:
+        i = m.end(); items = []
+        while True:
+            mt = re.compile(r'\s*(files\s*\(|\[|\w+)').match(txt, i)
+            if not mt: raise TieError(rel, txt[:i].count('\n') + 1, name, 'meson expression not understood')
+            tok = mt.group(1)
+            if tok.startswith('files') or tok == '[':
+                close = ')' if tok != '[' else ']'
+                j = txt.index(close, mt.end())
+                inner = txt[mt.end():j]
+                for part in inner.split(','):
+                    part = re.sub(r'#.*', '', part).strip()
+                    if not part: continue
+                    ms2 = re.fullmatch(r"'([^']+)'", part)
+                    if ms2: items.append(ms2.group(1))
+                    elif re.fullmatch(r'\w+', part) and tok == '[': items.append('<%s>' % part)
+                    else: raise TieError(rel, txt[:mt.end()].count('\n') + 1, part, 'meson list element not understood')
+                i = j + 1
+            else:
+                items += meson_list_expr(txt[:m.start()], tok, rel, depth + 1); i = mt.end()
+            mp = re.compile(r'[ \t]*\+').match(txt, i)
+            if mp: i = mp.end(); continue
+            if not re.compile(r'[ \t]*(#[^\n]*)?\n').match(txt, i): raise TieError(rel, txt[:i].count('\n') + 1, name, 'meson expression not understood')
+            break
+        out = items if m.group(1) == '=' else out + items
+    return out
+
+
+def library_build_definition(repo):
+    """what the repository's own build files say the shared library is made of:
+         src/meson.build   library('xrl', <sources>, …, gnu_symbol_visibility: 'hidden'); custom_target xrayglob_inline.c
+         src/Makefile.am   libxrl_la_SOURCES + nodist_libxrl_la_SOURCES, libxrl_la_CFLAGS with $(HIDDEN_VISIBILITY_CFLAGS)
+         meson.build / configure.ac   the ELF definition of XRL_EXTERN
+    -> dict(meson=[.c files], automake=[.c files], extern_meson, extern_autoconf, visibility_hidden)"""
+    rel = 'src/meson.build'
+    txt = open(os.path.join(repo, rel)).read()
+    ml = re.search(r"\blibrary\s*\(\s*'xrl'\s*,\s*(\w+)\s*,(.*?)\n\)", txt, flags=re.S)
+    if not ml: raise TieError(rel, 0, "library('xrl', …)", 'definition of the shared library not found')
+    srcs = meson_list_expr(txt, ml.group(1), rel)
+    gen = []
+    for s_ in list(srcs):
+        m = re.fullmatch(r'<(\w+)>', s_)
+        if not m: continue
+        mc = re.search(r"^%s\s*=\s*custom_target\s*\(\s*'([^']+)'\s*,\s*output\s*:\s*\[\s*'([^']+)'\s*\]" % m.group(1), txt, flags=re.M)
+        if not mc: raise TieError(rel, 0, s_, 'non-file source of libxrl is not a custom_target with one output')
+        srcs[srcs.index(s_)] = mc.group(2); gen.append(mc.group(2))
+    vis = re.search(r"gnu_symbol_visibility\s*:\s*'(\w+)'", ml.group(2))
+    rel2 = 'src/Makefile.am'
+    mk = re.sub(r'#[^\n]*', '', open(os.path.join(repo, rel2)).read()).replace('\\\n', ' ')
+    def var(name):
+        m = re.search(r'^%s\s*=\s*(.*)$' % re.escape(name), mk, flags=re.M)
+        if not m: raise TieError(rel2, 0, name, 'automake variable not found')
+        return m.group(1).split()
+    am = [x for x in var('libxrl_la_SOURCES') + var('nodist_libxrl_la_SOURCES') if x != '$(NULL)']
+    for x in am:
+        if not re.fullmatch(r'[\w.+-]+', x): raise TieError(rel2, 0, x, 'source list element not understood')
+    am_vis = '$(HIDDEN_VISIBILITY_CFLAGS)' in var('libxrl_la_CFLAGS')
+    top = open(os.path.join(repo, 'meson.build')).read()
+    ext_m = re.findall(r"config_h_data\.set\('XRL_EXTERN',\s*'([^']*)'\)", top)
+    ac = open(os.path.join(repo, 'configure.ac')).read()
+    ext_a = re.findall(r'AC_DEFINE\(\[XRL_EXTERN\],\s*\[([^\]]*)\]', ac)
+    if not ext_m: raise TieError('meson.build', 0, 'XRL_EXTERN', 'definition of XRL_EXTERN not found')
+    if not ext_a: raise TieError('configure.ac', 0, 'XRL_EXTERN', 'definition of XRL_EXTERN not found')
+    return dict(meson=sorted(x for x in srcs if x.endswith('.c')), automake=sorted(x for x in am if x.endswith('.c')), generated=gen,
+                meson_all=srcs, automake_all=am, extern_meson=ext_m, extern_autoconf=ext_a,
+                visibility_hidden=dict(meson=bool(vis and vis.group(1) == 'hidden'), automake=am_vis and 'HIDDEN_VISIBILITY_CFLAGS="-fvisibility=hidden"' in ac))
 
 
 def emit_json(path, obj):
